@@ -25,6 +25,8 @@ ALTS = {
     "email": {"type": "string", "format": "email"},
     "host": {"type": "string", "format": "hostname"},
     "plain": {"type": "string"},
+    "constw": {"const": "forever"},   # no `type`: typify drops the const and types the alternative as any JSON value
+    "enum_untyped": {"enum": ["x1", "x2"]},
     "refenum": {"$ref": "#/definitions/E"},
     "refnew": {"$ref": "#/definitions/N"},
     "refplain": {"$ref": "#/definitions/L"},   # a NAMED unconstrained string: a newtype whose FromStr cannot fail
@@ -51,7 +53,7 @@ def cases(tier, seed):
             p = shapes.place(sh, shapes.CONTEXT[cid])
             if p:
                 out.append(p)
-    names = list(ALTS) if tier != "quick" else ["uuid", "enum", "max2", "email", "host", "plain", "refnew", "refplain"]
+    names = list(ALTS) if tier != "quick" else ["uuid", "enum", "max2", "email", "host", "plain", "refnew", "refplain", "constw", "enum_untyped"]
     combos = list(itertools.permutations(names, 2))
     if tier != "quick":
         combos += list(itertools.permutations(["uuid", "enum", "max2", "email", "host", "date"], 3))
